@@ -234,7 +234,8 @@ CHECKS = {
         "queued commands of mixed priority / reset in progress / start-up, the fault-free run's wire events are counted and "
         "the run is repeated with a failure injected before and after each of them for each kind {ERROR 0x51, ERROR 0x80, "
         "RSTACK power-on, RSTACK watchdog, NCP silent, connection_lost(exc), EOF} and with a deliberate close() as control, "
-        "each with and without stray XOFF / XOFF+XON bytes from the NCP beforehand; "
+        "each with and without stray XOFF / XOFF+XON bytes from the NCP beforehand, with an earlier command left unanswered, "
+        "and with callers that abandon their requests before the link gives up; "
         "plus Hypothesis cases with generated injection instants, NCP versions and line faults. Checked: at least one "
         "_reset_controller_application callback after every reported failure (for silence once a DATA frame was written "
         "afterwards), none after a deliberate close, EZSP stopped, a new command raises at once and writes nothing, nothing "
